@@ -305,6 +305,7 @@ def check_e2e(ctx: Ctx, cases: List[dict]) -> None:
 
 
 def run(ctx: Ctx) -> None:
+    H.limit_memory()
     cells = grid()
     ctx.exhaustive = True
     for lo in range(0, len(cells), 200):
@@ -313,8 +314,8 @@ def run(ctx: Ctx) -> None:
     for sc in cells:          # cell-specific expectations need the results again: cheap, re-run
         grid_monitor(ctx, sc, H.run_scenario(sc))
     scenarios = [H.gen_scenario(ctx.rng, "pressure") for _ in range(ctx.budget(1500, 10000))]
-    for lo in range(0, len(scenarios), 500):
-        G9.check_direct(ctx, scenarios[lo: lo + 500], "C08")
+    for lo in range(0, len(scenarios), 250):
+        G9.check_direct(ctx, scenarios[lo: lo + 250], "C08")
     check_pairs(ctx)
     check_e2e(ctx, e2e_grid())
 
